@@ -196,8 +196,9 @@ func relayout(r *Rand, toks []eval.VerifToken, infix bool) string {
 			if needSep(prev, t) || r.Intn(3) == 0 {
 				sb.WriteString(sps[r.Intn(len(sps))])
 			}
-			if r.Intn(12) == 0 {
-				sb.WriteString("; a comment (with ; and \" inside\n")
+			if r.Intn(10) == 0 {
+				// a comment runs to the LINE FEED: a bare carriage return, a form feed, a quote, parentheses are all text
+				sb.WriteString([]string{"; a comment (with ; and \" inside\n", "; previous value:\r 2 (+ 1\n", ";x\ry\n", "; tab\tand\fform feed ) (\n", ";\n", "; crlf\r\n"}[r.Intn(6)])
 			}
 		}
 		sb.WriteString(txt(t))
